@@ -55,6 +55,53 @@ FIRST = {
     "C20-B": ("caught", None),
 }
 
+# round 2 (C/D): first trial = tools/psweep.py against the checks as they were at commit f921e2a (seeded/ROUND2_FIRST_TRIALS.log)
+FIRST.update({
+    "C01-C": ("missed", "c01 gained a whole-program leg that evaluates the other checks' generator families (programs with an injected scoping fault, binders renamed to a small pool, the C09 binder matrix, objectRemoveKey histories through 28 consumers)"),
+    "C01-D": ("missed", "new shared generator genrmkey (histories of literals / + / std.objectRemoveKey of the same key / shared sub-objects / prior observation) consumed by 28 builtins and manifesters in c01's program leg"),
+    "C02-C": ("missed", "c02 gained an operand matrix (every operator and construct x 12 operand values of every type, both short-circuit states) and typed programs with one sub-expression replaced by a value of another type"),
+    "C02-D": ("missed", "c02 gained nesting towers: objects nested 1-5 deep through 10 carriers, the innermost reading $ / self in 8 reader positions"),
+    "C03-C": ("caught", None),
+    "C03-D": ("missed", "hook change af399ae: scripted-heap nodes keep their edges in Vec / boxed slice / Option+Vec / OnceCell+boxed slice (every container tracer of the collector is driven); random histories with bursts of 20-70 edges; wide-array schedule workloads (widths 31..257)"),
+    "C04-C": ("caught", None),
+    "C04-D": ("missed", "laziness table extended by 45 entries from upstream's definitions and a generated family: a '*' precision taken by %s/%c must stay unevaluated for every flag/width/entry point"),
+    "C05-C": ("caught", None),
+    "C05-D": ("missed", "c05 gained a history leg: genrmkey objects through every emitter against the layer-deletion model's visible fields"),
+    "C06-C": ("missed", "c06 gained boundary texts: for every text->number path, every length around the overflow threshold x leading digit x filler x leading zeros x sign, and decimal texts on both sides of the rounding boundary"),
+    "C06-D": ("missed", "new generator genyaml: structured YAML with anchors on values / keys / items / collections and aliases in every position over scalars that read as out-of-range numbers"),
+    "C07-C": ("caught", None),
+    "C07-D": ("missed", "c07 gained the objectRemoveKey-history leg against a layer-deletion model written from the statement (manifest, objectFields(All), length, objectHas(All), in, hidden values, ==, objectValues, objectKeysValues)"),
+    "C08-C": ("caught", None),
+    "C08-D": ("caught", None),
+    "C09-C": ("missed", "c09 gained a binder matrix: every scope kind x every pair of binder slots (equal / distinct names; object-comprehension locals split before/after the field in every way) x nested scopes x 8 contexts, verdicts by the scope oracle"),
+    "C09-D": ("caught", None),
+    "C10-C": ("missed", "c10 gained 49 shapes: thunk chains through inheritance layers (13 ways a layer reads its predecessor x foldl/foldr/object-extension) and through lazily built containers"),
+    "C10-D": ("missed", "c10 gained import cycles through the CLI: 11 directory layouts (.., ./, -J, file and directory symlinks, entry in a sub-directory) x 5 import positions x limits"),
+    "C11-C": ("missed", "c11 gained a matrix library of 515 fields: every way a delayed computation arises x every way it fails (incl. arity mismatches of lazily created calls), re-evaluated in random histories"),
+    "C11-D": ("missed", "same matrix library: failing objects behind wrappers that add nothing (+ {}, {} +, objext, ...) inside 4 holders, observed shallowly then deeply"),
+    "C12-C": ("missed", "string values that begin/end the way the output framing does (newlines, ..., ---); -m combined with -S / -y"),
+    "C12-D": ("missed", "fault enumeration extended to the k-th step of multi-step outputs (-m where exactly the k-th file cannot be written / fails to evaluate / has the wrong type; -y where the k-th element fails)"),
+    "C13-C": ("caught", None),
+    "C13-D": ("caught", None),
+    "C14-C": ("missed", "harness accepts run-length encoded inputs; c14 gained giant tokens (9 token kinds x span lengths 2^25-1 .. 2^26+1) with extents and payload checksums known by construction"),
+    "C14-D": ("caught", None),
+    "C15-C": ("caught", None),
+    "C15-D": ("missed", "c15 gained giant nodes: generated programs with one inter-token gap widened to ~2^25 / ~2^26 bytes; dump must equal the one-byte-gap dump shifted"),
+    "C16-C": ("caught", None),
+    "C16-D": ("caught", None),
+    "C17-C": ("missed", "c17 gained dataflow programs: DAGs of set/sort operations whose operands are earlier results or the very same value (aliasing)"),
+    "C17-D": ("missed", "c17 gained re-entrant comparisons: the deciding element is lazy and itself runs sort/set/fold/filter/format (nested up to twice)"),
+    "C18-C": ("caught", None),
+    "C18-D": ("caught", None),
+    "C19-C": ("caught", None),
+    "C19-D": ("missed", "every count/type/key mismatch through all three entry points (std.format, %, std.mod) and directive-free format strings x every argument shape"),
+    "C20-C": ("missed", "c20 gained a sign/prefix grid: 29 prefixes (doubled/mixed signs, blanks, radix prefixes, look-alikes) x 15 bodies x 10 suffixes for the three integer parsers"),
+    "C20-D": ("missed", "c20 gained the whole RFC 8259 number grammar (e/E, exponent signs, leading zeros) alone / in arrays / in objects: parseJson correctly rounded, parseYaml == parseJson"),
+})
+# round 3 (E/F): filled from seeded/ROUND3_FIRST_TRIALS.log (first trial = tools/psweep.py before any change prompted by the round)
+ROUND3 = os.path.join(ROOT, "ROUND3_FIRST_TRIALS.log")
+ROUND3_NOTES = {}
+
 
 def needs(notes):
     paras = re.split(r"\n(?=- |\n|\*\*)", notes)
@@ -68,7 +115,7 @@ def needs(notes):
 def main():
     conf = {}
     for line in open(os.path.join(ROOT, "CONFIRMATION.log")):
-        m = re.match(r"CONFIRMED /tmp/wt/(C\d+) ([AB]): (.*)", line.strip())
+        m = re.match(r"CONFIRMED /tmp/wt\d*/(C\d+) ([A-Z]): (.*)", line.strip())
         if m:
             conf[m.group(1) + "-" + m.group(2)] = m.group(3)
     results = {}
@@ -78,8 +125,16 @@ def main():
             f = line.rstrip("\n").split("\t")
             if len(f) >= 5:
                 results[f[0]] = {"tier": f[1], "exit": int(f[2]), "violations": int(f[3]), "first_signatures": f[4]}
+    if os.path.exists(ROUND3):
+        for line in open(ROUND3):
+            f = line.rstrip("\n").split("\t")
+            if len(f) >= 4 and re.fullmatch(r"C\d+-[EF]", f[0]):
+                caught = f[2] == "rc=1" and f[3] != "violations=0"
+                FIRST[f[0]] = ("caught" if caught else "missed", ROUND3_NOTES.get(f[0]))
     rows = []
     for sid in sorted(FIRST):
+        if not os.path.isdir(os.path.join(ROOT, sid)):
+            continue
         d = os.path.join(ROOT, sid)
         notes = open(os.path.join(d, "notes.md"), encoding="utf-8").read()
         patch = open(os.path.join(d, "patch.diff"), encoding="utf-8").read()
@@ -94,8 +149,9 @@ def main():
             "files_changed": files,
             "patch_lines": sum(1 for ln in patch.splitlines() if ln[:1] in "+-" and ln[:3] not in ("+++", "---")),
             "needs_to_manifest": needs(notes),
-            "author": "a fresh sub-agent that was given only the text of the property and its own scratch worktree of /repo "
-                      "(nothing from /verif); see seeded/BRIEF.txt",
+            "author": "a fresh sub-agent that was given only the text of the property (from round 2 on also one-line titles of the "
+                      "changes already stored for it, to avoid repeats) and its own scratch worktree of /repo (nothing from /verif); "
+                      "see seeded/BRIEF.txt, BRIEF2.txt, BRIEF3.txt",
             "confirmed_by_me": {
                 "how": "tools/confirm_seeded.sh in the scratch worktree (since removed): apply patch, cargo test --workspace "
                        "--no-fail-fast --offline, cargo build, demo.sh; git checkout, cargo build, demo.sh",
@@ -126,6 +182,24 @@ def main():
             (t["strengthening_after_first_trial"] or "-")))
     with open(os.path.join(ROOT, "TABLE.md"), "w", encoding="utf-8") as f:
         f.write("\n".join(out) + "\n")
+    # DESIGN.md section 8: the table lives between two markers
+    dp = os.path.join(ROOT, "..", "DESIGN.md")
+    text = open(dp, encoding="utf-8").read()
+    begin, end = "<!-- SEEDED-TABLE-BEGIN (generated by tools/mkseeded_meta.py) -->", "<!-- SEEDED-TABLE-END -->"
+    summary = []
+    for rnd, letters in (("1", "AB"), ("2", "CD"), ("3", "EF")):
+        rs = [m for m in rows if m["id"][-1] in letters]
+        if rs:
+            summary.append("round %s (%s): %d changes, first trial caught %d, caught now %d" % (
+                rnd, "/".join(letters), len(rs), sum(1 for m in rs if m["tried_against_check"]["first_trial"] == "caught"),
+                sum(1 for m in rs if m["tried_against_check"]["detected_now"])))
+    block = begin + "\n\n" + "; ".join(summary) + ".\n\n" + "\n".join(out) + "\n\n" + end
+    if begin in text:
+        text = text[:text.index(begin)] + block + text[text.index(end) + len(end):]
+    else:
+        text = text.replace("@@TABLE@@", block)
+    with open(dp, "w", encoding="utf-8") as f:
+        f.write(text)
     missed = [m["id"] for m in rows if not m["tried_against_check"]["detected_now"]]
     print("wrote %d meta.json; detected now: %d; not detected: %s" % (len(rows), len(rows) - len(missed), missed))
     return 0
